@@ -37,6 +37,18 @@ func shapes(p *d.T, s d.S) {
 	}
 }
 
+// a directive on the whole function names other codes of the same categories than the diagnostics inside
+// @ignore IMM01, CTOR01
+func nestedScopes(p *d.T) {
+	p.X++
+	_ = new(d.T)
+}
+
+func chains() {
+	_ = d.MkS().PM(2010)
+	_ = d.MkTS().TM(2011)
+}
+
 var g1 = d.T{X: 2006}
 
 var g2 d.T
